@@ -46,8 +46,10 @@ SetMin(S) == CHOOSE x \in S : \A y \in S : x <= y
 (* ---------------------------------------------------------------------- *)
 (* 6.4.6 punctuators                                                       *)
 AllPunct == Punctuators \o Digraphs
-IsPunct(l) == \E i \in 1..Len(AllPunct) : AllPunct[i][1] = l
-PunctKind(l) == AllPunct[CHOOSE i \in 1..Len(AllPunct) : AllPunct[i][1] = l][2]
+PunctSpellings == {AllPunct[i][1] : i \in 1..Len(AllPunct)}
+PunctKindFn == [l \in PunctSpellings |-> AllPunct[CHOOSE i \in 1..Len(AllPunct) : AllPunct[i][1] = l][2]]
+IsPunct(l) == l \in PunctSpellings
+PunctKind(l) == PunctKindFn[l]
 IsDigraph(l) == \E i \in 1..Len(Digraphs) : Digraphs[i][1] = l
 (* spelling printed for a punctuator kind: its primary spelling *)
 PunctCanon(k) == Punctuators[CHOOSE i \in 1..Len(Punctuators) : Punctuators[i][2] = k][1]
@@ -79,8 +81,10 @@ IsIdent(l) ==
 
 (* 6.4.1 keywords; the declarative keyword function *)
 Keywords == KeywordsC11 \o KeywordsC23 \o KeywordsGNU
-IsKeyword(l) == \E i \in 1..Len(Keywords) : Keywords[i][1] = l
-KeywordKind(l) == Keywords[CHOOSE i \in 1..Len(Keywords) : Keywords[i][1] = l][2]
+KeywordSpellings == {Keywords[i][1] : i \in 1..Len(Keywords)}
+KeywordKindFn == [l \in KeywordSpellings |-> Keywords[CHOOSE i \in 1..Len(Keywords) : Keywords[i][1] = l][2]]
+IsKeyword(l) == l \in KeywordSpellings
+KeywordKind(l) == KeywordKindFn[l]
 KeywordSpelling(k) == KeywordCanon[CHOOSE i \in 1..Len(KeywordCanon) : KeywordCanon[i][1] = k][2]
 (* spellings on which the model takes no position: C23 keywords cproc does not claim *)
 KeywordDontCare == { <<"_","B","i","t","I","n","t">> }
